@@ -163,6 +163,8 @@ pub struct SchedOut {
     pub polls_of_victim: usize,
     pub victim_completed: bool,
     pub in_active: Option<usize>,
+    /// record counts of the closed blobs at final quiescence (before the restart)
+    pub closed_counts: Vec<usize>,
     pub worker_alive: bool,
 }
 
@@ -405,6 +407,11 @@ async fn main_task<K: HKey>(spec: SchedSpec) -> SchedOut {
     ctl::quiesce().await;
     out.final_obs = final_obs(&*storage, &spec.keys).await;
     out.in_active = storage.records_count_in_active_blob().await;
+    {
+        let d = storage.records_count_detailed().await;
+        let closed = if out.in_active.is_some() { d.len().saturating_sub(1) } else { d.len() };
+        out.closed_counts = d[..closed].iter().map(|x| x.1).collect();
+    }
     out.worker_alive = ctl::with_ctl(|c| c.task_alive("worker"));
     if spec.sync_check {
         let a = if storage.has_active_blob().await { storage.records_count_detailed().await.last().map(|x| x.0) } else { None };
@@ -819,6 +826,17 @@ pub fn judge(spec: &SchedSpec, trace: &RunTrace, panics: &[String], out: &SchedO
                 ));
             }
         }
+    }
+    // a switch to a new blob happens because the active blob is full (or on request): without
+    // lifecycle calls in the instance no closed blob is empty (one overflow, one switch)
+    let lifecycle = |o: &Op| matches!(o, Op::Rot | Op::ForceNever | Op::TryClose | Op::TryCreate | Op::TryRestore | Op::CloseBg | Op::CreateBg | Op::RestoreBg | Op::Rst | Op::RstLazy);
+    let any_lifecycle = spec.prefix.iter().any(lifecycle)
+        || spec.clients.iter().flatten().chain(spec.followup.iter()).any(|c| matches!(c, COp::M(o) if lifecycle(o)));
+    if !any_lifecycle && spec.cancel.is_none() && out.closed_counts.iter().any(|n| *n == 0) {
+        fs.push(finding(
+            "empty_closed_blob",
+            format!("at quiescence a closed blob holds no record (records per closed blob: {:?}): more switches than overflows", out.closed_counts),
+        ));
     }
     let (start, _) = prefix_content(spec, 4);
     let disk_puts: BTreeSet<(KeyId, u64, String)> = out
